@@ -245,6 +245,11 @@ package tree
 //@   trustens C01: ordS(t) && t.root.sub == old(t.root.sub)
 //@   ensures C01: valOK(t) && t.val == old(t.val)
 //@   after call insertOne[2]: assert hint(old(left.n)) && hint(old(left.n) - 1) && hint(old(left.pidx)) && hint(old(left.pidx) + 1) && hint(0) && hint(1)
+// data movement (proved): the separator left.parent.keys[left.pidx] goes to the front of right, left's last key goes up, left's last child becomes right's first
+//@   ensures C01: right.keys[0] == old(left.parent.keys[left.pidx]) && right.values[0] == old(left.parent.values[left.pidx]) && right.children[0] == old(left.children[left.n])
+//@   ensures C01: (forall i int {right.keys[i]} :: 1 <= i && i <= old(right.n) ==> right.keys[i] == old(right.keys[i-1])) && (forall i int {right.values[i]} :: 1 <= i && i <= old(right.n) ==> right.values[i] == old(right.values[i-1])) && (forall i int {right.children[i]} :: 1 <= i && i <= old(right.n) + 1 ==> right.children[i] == old(right.children[i-1]))
+//@   ensures C01: (forall i int {left.keys[i]} :: 0 <= i && i < old(left.n) - 1 ==> left.keys[i] == old(left.keys[i])) && (forall i int {left.values[i]} :: 0 <= i && i < old(left.n) - 1 ==> left.values[i] == old(left.values[i])) && (forall i int {left.children[i]} :: 0 <= i && i < old(left.n) ==> left.children[i] == old(left.children[i]))
+//@   ensures C01: left.parent.keys[old(left.pidx)] == old(left.keys[left.n-1]) && left.parent.values[old(left.pidx)] == old(left.values[left.n-1]) && (forall i int {left.parent.keys[i]} :: 0 <= i && i < 15 && i != old(left.pidx) ==> left.parent.keys[i] == old(left.parent.keys[i])) && (forall i int {left.parent.values[i]} :: 0 <= i && i < 15 && i != old(left.pidx) ==> left.parent.values[i] == old(left.parent.values[i]))
 
 //@ func btree.rotateLeft
 //@   props C01 C03
@@ -259,6 +264,11 @@ package tree
 //@   requires C01: swo(t) && ordOK(t)
 //@   trustens C01: ordS(t) && t.root.sub == old(t.root.sub)
 //@   ensures C01: valOK(t) && t.val == old(t.val)
+// data movement (proved): the separator right.parent.keys[left.pidx] goes to the end of left, right's first key goes up, right's first child becomes left's last
+//@   ensures C01: left.keys[old(left.n)] == old(left.parent.keys[left.pidx]) && left.values[old(left.n)] == old(left.parent.values[left.pidx]) && left.children[old(left.n) + 1] == old(right.children[0])
+//@   ensures C01: (forall i int {right.keys[i]} :: 0 <= i && i < old(right.n) - 1 ==> right.keys[i] == old(right.keys[i+1])) && (forall i int {right.values[i]} :: 0 <= i && i < old(right.n) - 1 ==> right.values[i] == old(right.values[i+1])) && (forall i int {right.children[i]} :: 0 <= i && i < old(right.n) ==> right.children[i] == old(right.children[i+1]))
+//@   ensures C01: (forall i int {left.keys[i]} :: 0 <= i && i < old(left.n) ==> left.keys[i] == old(left.keys[i])) && (forall i int {left.values[i]} :: 0 <= i && i < old(left.n) ==> left.values[i] == old(left.values[i])) && (forall i int {left.children[i]} :: 0 <= i && i <= old(left.n) ==> left.children[i] == old(left.children[i]))
+//@   ensures C01: left.parent.keys[old(left.pidx)] == old(right.keys[0]) && left.parent.values[old(left.pidx)] == old(right.values[0]) && (forall i int {left.parent.keys[i]} :: 0 <= i && i < 15 && i != old(left.pidx) ==> left.parent.keys[i] == old(left.parent.keys[i])) && (forall i int {left.parent.values[i]} :: 0 <= i && i < 15 && i != old(left.pidx) ==> left.parent.values[i] == old(left.parent.values[i]))
 
 //@ func btree.steal
 //@   props C01 C03
@@ -309,6 +319,11 @@ package tree
 //@   requires C01: swo(t) && ordOK(t)
 //@   trustens C01: ordS(t) && t.root.sub == old(t.root.sub)
 //@   ensures C01: valOK(t) && t.val == old(t.val)
+// data movement (proved, at the point where the two nodes have been joined and the separator removed from the parent)
+//@   after call removeOne[2]: assert C01: left.keys[left.n - old(right.n) - 1] == old(left.parent.keys[left.pidx]) && left.values[left.n - old(right.n) - 1] == old(left.parent.values[left.pidx]) && left.n == old(left.n) + old(right.n) + 1
+//@   after call removeOne[2]: assert C01: (forall i int {left.keys[i]} :: 0 <= i && i < old(left.n) ==> left.keys[i] == old(left.keys[i])) && (forall i int {left.values[i]} :: 0 <= i && i < old(left.n) ==> left.values[i] == old(left.values[i])) && (forall i int {left.children[i]} :: 0 <= i && i <= old(left.n) ==> left.children[i] == old(left.children[i]))
+//@   after call removeOne[2]: assert C01: (forall i int {old(right.keys[i])} :: 0 <= i && i < old(right.n) ==> left.keys[old(left.n) + 1 + i] == old(right.keys[i])) && (forall i int {old(right.values[i])} :: 0 <= i && i < old(right.n) ==> left.values[old(left.n) + 1 + i] == old(right.values[i])) && (forall i int {old(right.children[i])} :: 0 <= i && i <= old(right.n) ==> left.children[old(left.n) + 1 + i] == old(right.children[i]))
+//@   after call removeOne[2]: assert C01: (forall i int {parent.keys[i]} :: (0 <= i && i < old(left.pidx) ==> parent.keys[i] == old(left.parent.keys[i])) && (old(left.pidx) <= i && i < old(left.parent.n) - 1 ==> parent.keys[i] == old(left.parent.keys[i+1]))) && (forall i int {parent.values[i]} :: (0 <= i && i < old(left.pidx) ==> parent.values[i] == old(left.parent.values[i])) && (old(left.pidx) <= i && i < old(left.parent.n) - 1 ==> parent.values[i] == old(left.parent.values[i+1])))
 
 //@ func btree.removeRightmost
 //@   props C01 C03
